@@ -96,6 +96,7 @@ let beh_ = function
   | S [A "str"; s] -> BStr (nat_ s)
   | S [A "recur"; k] -> BRecur (nat_ k)
   | S [A "receven"; k] -> BRecEven (nat_ k)
+  | S [A "strep"; S ls] -> BStrEp (L.map nat_ ls)
   | _ -> failwith "beh"
 let node_ (x : sx) : nspec * nbeh =
   let f = lst x in
